@@ -1658,6 +1658,10 @@ static void _reset_sm_state_for_reconnect(xmpp_conn_t *conn)
         s->previd = s->id;
         s->id = NULL;
 
+        /* bound_jid may still hold the JID kept by an earlier disconnect
+         * (e.g. a reconnect attempt failed before the session was resumed) */
+        if (s->bound_jid)
+            strophe_free(conn->ctx, s->bound_jid);
         s->bound_jid = conn->bound_jid;
         conn->bound_jid = NULL;
     } else if (s->id) {
